@@ -301,6 +301,41 @@ def check(ctx):
         ctx.ob("STO-4", m, f"{len(ys)} yield(s) of (name, column) pairs", m.node, ok,
                "all yields are (name, column) pairs consumed by the constructor" if ok else "a yield is not a (name, column) pair",
                nontrivial=False)
+    for m in df.methods.values():
+        if not any(d == "builtins.classmethod" for d in m.decorators) or m.name.startswith("_"):
+            continue
+        if m.has_decorator("new_from_generator"):
+            continue
+        from ..forms import value_cases as _vc
+        cases = _vc(m, "return")
+        bad = []
+        for _, leaf, f_ in cases:
+            okc = isinstance(leaf, ast.Call) and (norm(leaf.func) == m.params[0] or
+                                                 (isinstance(leaf.func, ast.Attribute) and norm(leaf.func.value) == m.params[0]))
+            if not okc:
+                bad.append(leaf)
+        ctx.ob("STO-4", m, f"{m.name} returns {[norm(l)[:40] for _, l, _ in cases]}", m.node, bool(cases) and not bad,
+               "the alternate constructor returns cls(...) or another constructor of cls: the frame goes through the checked constructor" if (cases and not bad) else
+               f"{m.name} returns {norm(bad[0])[:60] if bad else 'nothing'}: a frame that did not pass the checked constructor",
+               nontrivial=False, clause="every DataFrame obtained from a reader or converter")
+    ga = repo.fn(f"{DF}.__getattribute__")
+    gt = repo.fn(f"{DF}.__getattr__")
+    from ..forms import value_cases as _vc2
+    c_ga = _vc2(ga, "return")
+    ok = any(norm(leaf) == f"{ga.params[0]}[{ga.params[1]}]" and any(k == "T" and "COLUMN_PLACEHOLDER" in t and " is " in t for k, t in f_)
+             and any(k == "T" and t == f"{ga.params[1]} in {ga.params[0]}" for k, t in f_) for _, leaf, f_ in c_ga)
+    ctx.ob("STO-5", ga, "placeholder attribute -> self[name]", ga.node, ok,
+           "an attribute holding the placeholder resolves to the column stored under that key" if ok else
+           "__getattribute__ does not resolve a placeholder attribute to self[name] (under `name in self`)",
+           clause="reachable identically by key and by attribute")
+    c_gt = _vc2(gt, "return")
+    ok = any(norm(leaf) in (f"{gt.params[0]}.__getitem__({gt.params[1]})", f"{gt.params[0]}[{gt.params[1]}]")
+             and any(k == "T" and t == f"{gt.params[1]} in {gt.params[0]}" for k, t in f_) for _, leaf, f_ in c_gt) and \
+        any(isinstance(n, ast.Raise) and "AttributeError" in norm(n) for n in body_nodes(gt.node))
+    ctx.ob("STO-5", gt, "__getattr__: column if present, else AttributeError", gt.node, ok,
+           "a missing attribute is looked up as a column, otherwise AttributeError" if ok else
+           "__getattr__ does not fall back to the column of that name / raise AttributeError",
+           clause="once removed it is reachable by neither", nontrivial=False)
     # ---------------------------------------------------------------- STO-5
     adders = [init, seti]
     guards = []
